@@ -381,6 +381,8 @@ class Target:
         refuse = self.policy == "AllRefused" or (large and self.policy == "LargeRefused")
         if refuse:
             return mr_reply(svc, 0x01, (0x0100,) if not large else ()) if not large else mr_reply(svc, ST_SVC_UNSUPPORTED)
+        if any(v["serial"] == serial for v in self.conns.values()):
+            return mr_reply(svc, 0x01, (0x0100,))          # connection in use / duplicate Forward Open: the triad is still held
         cid = self.cids.pop(0)
         self.conns[cid] = {"size": size, "sess": handle, "last_seq": None, "last_reply": None, "serial": serial,
                            "ot_cid": bytes(d[6:10]), "path": cpath}
